@@ -64,6 +64,9 @@ def cases(tier, seed):
     for d, B in itertools.product(("G5nm", "G5mm"), (0.2,) if quick else fields):
         for tol in (1e-3,) if quick else tols:
             out.append(dict(fam="run", dev=d, B=B, tol=tol, ab=0, maxit=1000))
+    # transport current at exactly zero applied field (the induced potential comes from the sheet current, not from the field)
+    for tol in (1e-2, 1e-3):
+        out.append(dict(fam="run", dev="G1b", B=0.0, tol=tol, ab=0, maxit=1000))
     # an undriven screened run (currents identically zero: the sum is zero) after a driven screened run in the same process
     for d in ("G1s", "G5"):
         out.append(dict(fam="run", dev=d, B=0.0, tol=1e-3, ab=0, maxit=1000, prior="driven"))
